@@ -471,6 +471,7 @@ func RunHistory(ctx context.Context, rng *rand.Rand, gc GenCfg, opt Options) *Ge
 			g.pruneD = maxDepth + 2
 		}
 	}
+	e.Trace.HookDepth = g.pruneD
 	base := 0
 	if len(gc.BaseLens) > 0 {
 		base = gc.BaseLens[rng.Intn(len(gc.BaseLens))]
@@ -520,6 +521,7 @@ func RunHistory(ctx context.Context, rng *rand.Rand, gc GenCfg, opt Options) *Ge
 // ReplayTrace executes a recorded trace literally.
 func ReplayTrace(ctx context.Context, tr Trace, opt Options) (*Engine, error) {
 	e := NewEngine(ctx, tr.MaxDepth, opt)
+	e.Trace.HookDepth = tr.HookDepth
 	// a long run of base headers is replayed in bulk, exactly as it was generated
 	nb := 0
 	for nb < len(tr.Ops) && tr.Ops[nb].K == "submit" && tr.Ops[nb].Note == "base" {
@@ -624,7 +626,7 @@ func Minimise(ctx context.Context, tr Trace, opt Options, prop, sig string, budg
 	for chunk >= 1 && tries < budget {
 		removed := false
 		for start := keep; start+chunk <= len(cur.Ops) && tries < budget; {
-			cand := Trace{MaxDepth: cur.MaxDepth}
+			cand := Trace{MaxDepth: cur.MaxDepth, HookDepth: cur.HookDepth}
 			cand.Ops = append(cand.Ops, cur.Ops[:start]...)
 			cand.Ops = append(cand.Ops, cur.Ops[start+chunk:]...)
 			tries++
